@@ -27,3 +27,224 @@ Proof.
                                     | context [match ?x with _ => _ end] => destruct x
                                     end; discriminate.
 Qed.
+
+(* ------------------------------------------------------------------ one interpreter step never crashes *)
+From BV Require Import NumExpr ExtProofs.
+From BV.Gen Require Import Sites NumOps.
+
+Definition nc (r : see * status) : Prop := forall x, snd r <> SCrash x.
+
+(* what the session guarantees about the environment: pbegincodehash points into a live script, and a tapscript session carries
+   an initialised validation-weight budget (setup_environment / configure_tx_txin) *)
+Definition safe (c : cfg) (e : see) : Prop :=
+  e_cb e <> None /\
+  ((c_sigver c =? SV_BASE) || (c_sigver c =? SV_WITNESS_V0) || (c_sigver c =? SV_TAPROOT) = false -> ed_weight_init (e_ed e) = true).
+
+Lemma nc_ok e : nc (ok e). Proof. intros x. cbn. discriminate. Qed.
+Lemma nc_fail e err : nc (fail e err). Proof. intros x. cbn. discriminate. Qed.
+Lemma nc_exn e y : nc (e, SExn y). Proof. intros x. cbn. discriminate. Qed.
+Lemma nc_err e : nc (e, SErr). Proof. intros x. cbn. discriminate. Qed.
+Lemma nc_sok e : nc (e, SOk). Proof. intros x. cbn. discriminate. Qed.
+#[global] Hint Resolve nc_ok nc_fail nc_exn nc_err nc_sok : nocrash.
+
+Lemma sn_ctor_no_crash v m n x : sn_ctor v m n <> Crash x.
+Proof. unfold sn_ctor. destruct (n <? length v)%nat; [discriminate|]. destruct (m && sn_nonminimal v); discriminate. Qed.
+
+Ltac nc_leaf := first [apply nc_ok | apply nc_fail | apply nc_exn | apply nc_err | apply nc_sok].
+Ltac nc_split :=
+  repeat match goal with
+         | |- nc (if ?b then _ else _) => destruct b
+         | |- nc (let '(_, _) := ?x in _) => destruct x
+         end.
+
+Section NoCrash.
+Variable low_s : bytes -> bool.
+Variable c : cfg.
+
+Lemma nc_with_num v n e k : (forall z, nc (k z)) -> nc (with_num c v n e k).
+Proof.
+  intros H. unfold with_num. destruct (sn_ctor v (req_minimal c) n) eqn:E; [apply H|apply nc_exn|].
+  exfalso. eapply sn_ctor_no_crash. exact E.
+Qed.
+Lemma nc_need e n err k : nc k -> nc (need e n err k).
+Proof. intros H. unfold need. destruct (ssize e <? n); [apply nc_fail|exact H]. Qed.
+
+Lemma num_at_cases e k m : (exists z, num_at c e k m = Ok z) \/ (exists y, num_at c e k m = Exn y).
+Proof.
+  unfold num_at. destruct (sn_ctor (stop e k) (req_minimal c) m) eqn:E; [left; eauto|right; eauto|].
+  exfalso. eapply sn_ctor_no_crash. exact E.
+Qed.
+
+(* the numeric opcode tables have an entry for every opcode the switch sends to them *)
+Lemma unary_num_total : forall opcode bn,
+  (opcode =? OP_1ADD) || (opcode =? OP_1SUB) || (opcode =? OP_NEGATE) || (opcode =? OP_ABS) || (opcode =? OP_NOT) || (opcode =? OP_0NOTEQUAL) = true ->
+  unary_num opcode bn <> None.
+Proof.
+  intros opcode bn H.
+  repeat (apply Bool.orb_true_iff in H; destruct H as [H|H]); apply Z.eqb_eq in H; subst opcode; vm_compute; discriminate.
+Qed.
+
+Lemma binary_num_total : forall opcode a b,
+  ((OP_ADD <=? opcode) && (opcode <=? OP_SUB)) || ((OP_BOOLAND <=? opcode) && (opcode <=? OP_MAX)) = true ->
+  binary_num opcode a b <> None.
+Proof.
+  intros opcode a b H.
+  assert (Hc: opcode = OP_ADD \/ opcode = OP_SUB \/ opcode = OP_BOOLAND \/ opcode = OP_BOOLOR \/ opcode = OP_NUMEQUAL \/ opcode = OP_NUMEQUALVERIFY \/
+              opcode = OP_NUMNOTEQUAL \/ opcode = OP_LESSTHAN \/ opcode = OP_GREATERTHAN \/ opcode = OP_LESSTHANOREQUAL \/ opcode = OP_GREATERTHANOREQUAL \/
+              opcode = OP_MIN \/ opcode = OP_MAX).
+  { apply Bool.orb_true_iff in H. destruct H as [H|H]; apply andb_prop in H; destruct H as [H1 H2]; apply Z.leb_le in H1; apply Z.leb_le in H2;
+    unfold OP_ADD, OP_SUB, OP_BOOLAND, OP_BOOLOR, OP_NUMEQUAL, OP_NUMEQUALVERIFY, OP_NUMNOTEQUAL, OP_LESSTHAN, OP_GREATERTHAN, OP_LESSTHANOREQUAL,
+           OP_GREATERTHANOREQUAL, OP_MIN, OP_MAX in *; lia. }
+  unfold binary_num.
+  repeat (destruct Hc as [Hc|Hc]; [subst opcode; vm_compute; discriminate|]). subst opcode; vm_compute; discriminate.
+Qed.
+
+(* signature checks *)
+Lemma nc_eval_checksig_pre e sig key : safe c e -> forall x, snd (fst (eval_checksig_pre low_s c e sig key)) <> SCrash x.
+Proof.
+  intros [Hcb _] x. unfold eval_checksig_pre, script_code. destruct (e_cb e) as [code0|]; [|contradiction].
+  repeat match goal with
+         | |- context [if ?b then _ else _] => destruct b
+         | |- context [let '(_, _) := ?q in _] => destruct q
+         | |- context [match ?q with Some _ => _ | None => _ end] => destruct q
+         end; cbn; discriminate.
+Qed.
+
+Lemma nc_eval_checksig_tapscript e sig key : ed_weight_init (e_ed e) = true -> forall x, snd (fst (eval_checksig_tapscript c e sig key)) <> SCrash x.
+Proof.
+  intros Hw x. unfold eval_checksig_tapscript. rewrite Hw. cbn [negb].
+  repeat match goal with
+         | |- context [if ?b then _ else _] => destruct b
+         | |- context [let '(_, _) := ?q in _] => destruct q
+         end; cbn; discriminate.
+Qed.
+
+Lemma nc_eval_checksig e sig key : safe c e -> forall x, snd (fst (eval_checksig low_s c e sig key)) <> SCrash x.
+Proof.
+  intros Hs x. unfold eval_checksig.
+  destruct (pv_has_key c key && pv_match c sig key); [cbn; discriminate|].
+  destruct (c_sigver c =? SV_TAPROOT) eqn:E2.
+  - destruct (k_schnorr (c_chk c) sig key SV_TAPROOT (e_ed e)) as [okv err]. destruct okv; cbn; discriminate.
+  - destruct ((c_sigver c =? SV_BASE) || (c_sigver c =? SV_WITNESS_V0)) eqn:E1.
+    + apply nc_eval_checksig_pre. exact Hs.
+    + apply nc_eval_checksig_tapscript. destruct Hs as [_ Hw]. apply Hw. rewrite E1, E2. reflexivity.
+Qed.
+
+Lemma nc_op_checksig e opcode : safe c e -> nc (op_checksig low_s c e opcode).
+Proof.
+  intros Hs. unfold op_checksig. destruct (ssize e <? 2); [apply nc_fail|].
+  pose proof (nc_eval_checksig e (stop e 2) (stop e 1) Hs) as H.
+  destruct (eval_checksig low_s c e (stop e 2) (stop e 1)) as [[e1 st] fS]. cbn [fst snd] in H.
+  destruct st; try (intros x; cbn; first [discriminate | apply H]).
+  destruct (opcode =? OP_CHECKSIGVERIFY); [destruct fS|]; nc_leaf.
+Qed.
+
+Lemma nc_op_checksigadd e : safe c e -> nc (op_checksigadd low_s c e).
+Proof.
+  intros Hs. unfold op_checksigadd. destruct ((c_sigver c =? SV_BASE) || (c_sigver c =? SV_WITNESS_V0)); [apply nc_fail|].
+  destruct (ssize e <? 3); [apply nc_fail|].
+  destruct (num_at_cases e 2 4) as [[z Hz]|[y Hy]]; [rewrite Hz|rewrite Hy; apply nc_exn].
+  pose proof (nc_eval_checksig e (stop e 3) (stop e 1) Hs) as H.
+  destruct (eval_checksig low_s c e (stop e 3) (stop e 1)) as [[e1 st] fS]. cbn [fst snd] in H.
+  destruct st; try (intros x; cbn; first [discriminate | apply H]).
+Qed.
+
+Lemma nc_multisig_loop fuel e code isig ikey nS nK : forall x, snd (fst (multisig_loop low_s fuel c e code isig ikey nS nK)) <> SCrash x.
+Proof.
+  revert isig ikey nS nK. induction fuel as [|f IH]; intros isig ikey nS nK x; cbn [multisig_loop]; [cbn; discriminate|].
+  destruct (0 <? nS); [|cbn; discriminate].
+  assert (Hstep: forall fOk : bool,
+    snd (fst (let isig' := if fOk then isig + 1 else isig in
+              let nSigs' := if fOk then nS - 1 else nS in
+              let ikey' := ikey + 1 in let nKeys' := nK - 1 in
+              if nKeys' <? nSigs' then (e, SOk, false) else multisig_loop low_s f c e code isig' ikey' nSigs' nKeys')) <> SCrash x).
+  { intros fOk. cbv zeta. destruct (nK - 1 <? (if fOk then nS - 1 else nS)); [cbn; discriminate|apply IH]. }
+  destruct (pv_has_key c (stop e (Z.to_nat ikey))); [apply Hstep|].
+  destruct (check_sig_encoding low_s (c_flags c) (stop e (Z.to_nat isig))); [cbn; discriminate|].
+  destruct (check_pubkey_encoding (c_flags c) (c_sigver c) (stop e (Z.to_nat ikey))); [cbn; discriminate|].
+  apply Hstep.
+Qed.
+
+Lemma nc_multisig_cleanup n e fS ikey2 : nc (multisig_cleanup n c e fS ikey2).
+Proof.
+  revert e ikey2. induction n as [|m IH]; intros e ikey2; cbn [multisig_cleanup]; [apply nc_ok|].
+  match goal with |- nc (if ?b then _ else _) => destruct b end; [apply nc_fail|apply IH].
+Qed.
+
+Lemma nc_op_checkmultisig e opcode : safe c e -> nc (op_checkmultisig low_s c e opcode).
+Proof.
+  intros [Hcb _]. unfold op_checkmultisig.
+  destruct (c_sigver c =? SV_TAPSCRIPT); [apply nc_fail|].
+  destruct (ssize e <? 1); [apply nc_fail|].
+  destruct (num_at_cases e 1 4) as [[kraw Hz]|[y Hy]]; [rewrite Hz|rewrite Hy; apply nc_exn].
+  match goal with |- nc (if ?b then _ else _) => destruct b end; [apply nc_fail|].
+  set (e0 := set_ops e (e_ops e + sn_getint kraw)).
+  match goal with |- nc (if ?b then _ else _) => destruct b end; [apply nc_fail|].
+  match goal with |- nc (if ?b then _ else _) => destruct b end; [apply nc_fail|].
+  destruct (num_at_cases e0 (Z.to_nat (2 + sn_getint kraw)) 4) as [[sraw Hs]|[y Hy]]; [rewrite Hs|rewrite Hy; apply nc_exn].
+  match goal with |- nc (if ?b then _ else _) => destruct b end; [apply nc_fail|].
+  match goal with |- nc (if ?b then _ else _) => destruct b end; [apply nc_fail|].
+  unfold script_code. change (e_cb e0) with (e_cb e). destruct (e_cb e) as [code0|]; [|contradiction].
+  match goal with |- context [multisig_fad ?a ?k0 ?b0 ?s] => destruct (multisig_fad a k0 b0 s) as [code fadfail] end.
+  destruct fadfail; [apply nc_fail|].
+  match goal with |- context [multisig_loop ?ls ?fu ?cc ?ee ?co ?a1 ?a2 ?a3 ?a4] =>
+    pose proof (nc_multisig_loop fu ee co a1 a2 a3 a4) as HL;
+    destruct (multisig_loop ls fu cc ee co a1 a2 a3 a4) as [[e1 st] fS] end.
+  cbn [fst snd] in HL.
+  destruct st; try (intros x; cbn; first [discriminate | apply HL]).
+  match goal with |- context [multisig_cleanup ?n ?cc ?ee ?f ?k] =>
+    pose proof (nc_multisig_cleanup n ee f k) as HC; destruct (multisig_cleanup n cc ee f k) as [e2 st2] end.
+  destruct st2; try (intros x; cbn; first [discriminate | apply HC]).
+  destruct (ssize e2 <? 1); [apply nc_fail|].
+  match goal with |- nc (if ?b then _ else _) => destruct b end; [apply nc_fail|].
+  destruct (opcode =? OP_CHECKMULTISIGVERIFY); [destruct fS|]; nc_leaf.
+Qed.
+
+(* the whole opcode switch *)
+Lemma nc_exec_opcode e opcode fExec pc' : safe c e -> nc (exec_opcode low_s c e opcode fExec pc').
+Proof.
+  intros Hs. unfold exec_opcode.
+  destruct (is_extended_op opcode) eqn:Eext. { intros x. apply ext_no_crash. exact Eext. }
+  repeat match goal with
+         | |- nc (need _ _ _ _) => apply nc_need
+         | |- nc (with_num _ _ _ _ _) => apply nc_with_num; intros
+         | |- nc (op_checksig _ _ _ _) => apply nc_op_checksig; exact Hs
+         | |- nc (op_checksigadd _ _ _) => apply nc_op_checksigadd; exact Hs
+         | |- nc (op_checkmultisig _ _ _ _) => apply nc_op_checkmultisig; exact Hs
+         | |- nc (match num_at ?a ?b ?k ?m with _ => _ end) =>
+             let z := fresh "z" in let Hz := fresh "Hz" in let y := fresh "y" in
+             destruct (num_at_cases b k m) as [[z Hz]|[y Hz]]; rewrite Hz; [|apply nc_exn]
+         | |- nc (match unary_num ?a ?b with _ => _ end) =>
+             let E := fresh "E" in destruct (unary_num a b) eqn:E; [|exfalso; eapply unary_num_total; [|exact E]; assumption]
+         | |- nc (match binary_num ?a ?b ?k with _ => _ end) =>
+             let E := fresh "E" in destruct (binary_num a b k) eqn:E; [|exfalso; eapply binary_num_total; [|exact E]; assumption]
+         | |- nc (match e_alt ?a with _ => _ end) => destruct (e_alt a)
+         | |- nc (let _ := _ in _) => cbv zeta
+         | |- nc (if ?b then _ else _) => let E := fresh "Eb" in destruct b eqn:E
+         end; try nc_leaf.
+Qed.
+
+Theorem step_script_no_crash e pc local : safe c e -> forall x, snd (step_script low_s c e pc local) <> SCrash x.
+Proof.
+  intros Hs x. unfold step_script.
+  destruct (get_op pc) as [[[opcode push]|] pc']; [|cbn; discriminate].
+  match goal with |- context [if ?b then _ else _] => destruct b end; [cbn; discriminate|].
+  set (count := ((c_sigver c =? SV_BASE) || (c_sigver c =? SV_WITNESS_V0)) && cmp_eval (fst site_opcount_threshold) opcode (snd site_opcount_threshold)).
+  set (e0 := if count then set_ops e (e_ops e + 1) else e).
+  assert (H0: safe c e0) by (subst e0; destruct count; exact Hs).
+  match goal with |- context [if ?b then _ else _] => destruct b end; [cbn; discriminate|].
+  match goal with |- context [if ?b then _ else _] => destruct b end; [cbn; discriminate|].
+  match goal with |- context [if ?b then _ else _] => destruct b end; [cbn; discriminate|].
+  match goal with |- context [let '(_, _) := ?q in _] => assert (HX: nc q); [|destruct q as [e1 st]] end.
+  { repeat match goal with |- nc (if ?b then _ else _) => destruct b end; try nc_leaf. apply nc_exec_opcode. exact H0. }
+  destruct st; cbn [snd]; try discriminate.
+  - match goal with |- context [if ?b then _ else _] => destruct b end; cbn; discriminate.
+  - apply (HX x).
+Qed.
+End NoCrash.
+
+(* every session starts in a safe environment: pbegincodehash is the start of the script; a tapscript configuration carries the weight budget *)
+Lemma setup_env_safe : forall c script stack succ ed t,
+  ((c_sigver c =? SV_BASE) || (c_sigver c =? SV_WITNESS_V0) || (c_sigver c =? SV_TAPROOT) = false -> ed_weight_init ed = true) ->
+  safe c (i_e (setup_env c script stack succ ed t)).
+Proof. intros c script stack succ ed t H. split; [cbn; discriminate|exact H]. Qed.
